@@ -381,6 +381,34 @@ func TestC20PromLong(t *testing.T) {
 	})
 }
 
+// very many label sets: every distinct (method, url, status) keeps a series of its own
+func TestC20ManyLabels(t *testing.T) {
+	vh.Check(t, 1, 8, func(t *rapid.T) {
+		n := rapid.SampledFrom([]int{2500, 5000, 12000}).Draw(t, "n")
+		kind := rapid.SampledFrom([]string{"urls", "urls", "codes", "methods"}).Draw(t, "kind")
+		c := c20Case{Goroutines: rapid.SampledFrom([]int{1, 8}).Draw(t, "g")}
+		for i := 0; i < n; i++ {
+			r := c20Res{Method: "GET", URL: "http://many.test/", Code: 200, In: uint64(i), Out: 1, Latency: int64(i) * 1000}
+			switch kind {
+			case "urls":
+				r.URL = fmt.Sprintf("http://many.test/item/%d", i%(n/2+1))
+			case "codes":
+				r.Code = uint16(i % 65536)
+			default:
+				r.Method = fmt.Sprintf("M%d", i%(n/2+1))
+			}
+			if i%7 == 0 {
+				r.Err = c20Errors[i%len(c20Errors)]
+			}
+			c.Results = append(c.Results, r)
+		}
+		vh.Case("C20.prom", fmt.Sprintf("many-%s-%d-%d", kind, n, c.Goroutines), true, "many-label-sets:"+kind)
+		if err := runC20(c); err != nil {
+			vh.Fail(t, "C20", "C20.prom", map[string]any{"n": n, "kind": kind}, fmt.Errorf("%d results over %d distinct %s: %v", n, n/2+1, kind, err))
+		}
+	})
+}
+
 var _ = sort.Strings
 var _ = strings.Join
 
